@@ -200,6 +200,7 @@ Definition take (n : N) (l : list N) : option (list N * list N) :=
 
 Section XZ.
 Variable fuel : positive.
+Variable strict : bool.   (* true: distances must be below the declared dictionary size exactly *)
 
 (** one Block starting at [xin x] (its first byte is not 0x00) *)
 Definition block_decode (x : xz) : xz :=
@@ -213,7 +214,7 @@ Definition block_decode (x : xz) : xz :=
       match block_header_decode (xcheck x) hdr with
       | Err e => xz_fail x e
       | Ok bh =>
-        let s := l2_run (eff_dict (chain_dict (bh_filters bh))) fuel (l2_init rest []) in
+        let s := l2_run (if strict then chain_dict (bh_filters bh) else eff_dict (chain_dict (bh_filters bh))) fuel (l2_init rest []) in
         let raw := rev_append (l2out s) [] in
         let out := unfilter (bh_filters bh) raw in
         let used := l2used s in
